@@ -29,7 +29,16 @@ def main():
             e = dict(e)
             e["source"] = os.path.basename(p)
             if e.get("status") == "fixed":
-                h = subj.get(e.get("commit", "").strip())
+                c = e.get("commit", "").strip()
+                h = subj.get(c)
+                if not h:
+                    # a hash (possibly of a builder's branch) or a subject prefix
+                    r = subprocess.run(["git", "-C", REPO, "log", "-1", "--format=%s", c.split()[0]], stdout=subprocess.PIPE, stderr=subprocess.DEVNULL, text=True)
+                    if r.returncode == 0 and r.stdout.strip():
+                        h = subj.get(r.stdout.strip())
+                if not h:
+                    cands = [hh for ss, hh in subj.items() if c and (ss.startswith(c) or c.startswith(ss))]
+                    h = cands[0] if cands else None
                 if not h:
                     missing.append(e.get("commit"))
                     h = "?"
